@@ -312,3 +312,221 @@ def run_delegation_script(script, variant=0):
             out, res = type(e).__name__, {"k": "none"}
         steps.append({"op": o, "out": out, "res": res})
     return {"variant": variant, "steps": steps}
+
+
+# ------------------------------------------------------------------------------------------------ codecs (C03)
+LABEL_VALUES = {
+    "bdf": ("0000:25:00.0", "0000:81:00.1"), "mac": ("00:11:22:33:44:55", "0c:42:a1:be:8f:d4"),
+    "ipv4": ("192.168.1.1", "10.0.0.2"), "ipv4_range": ("192.168.1.1-192.168.1.10", "10.0.0.1-10.0.0.9"),
+    "ipv4_subnet": ("192.168.1.0/24", "10.0.0.0/8"), "ipv6": ("2001:db8::1", "fe80::2"),
+    "ipv6_range": ("2001:db8::1-2001:db8::9", "fe80::1-fe80::5"), "ipv6_subnet": ("2001:db8::/48", "fe80::/64"),
+    "asn": ("65000", "12345"), "vlan": ("100", "200"), "vlan_range": ("1-100", "200-300"), "inner_vlan": ("10", "20"),
+    "instance": ("instance-0001", "i-2"), "instance_parent": ("renc-w1.fabric", "uky-w2"), "local_name": ("p1", "HundredGigE0/0/0/5"),
+    "local_type": ("Bundle-Ether", "PCI"), "device_name": ("renc-data-sw", "uky-data-sw"), "bgp_key": ("abcdef12", "key-0001"),
+    "account_id": ("acct-123", "1234567890"), "region": ("us-east-1", "eu-west"), "usb_id": ("1234:abcd", "0001:0002"),
+    "numa": ("0", "3"),
+}
+STR_VALUES = {"instance_type": ("fabric.c2.m8.d10", "fabric.c4.m16.d100"), "postal": ("100 Europa Dr., Chapel Hill", "Lexington KY"),
+              "reservation_id": ("res-0001", "res-2"), "reservation_state": ("Active", "Failed"), "error_message": ("", "boom: it broke"),
+              "sub_graph_id": ("sg-1", "sg-2"), "parent_graph_id": ("pg-1", "pg-2"), "adm_graph_ids": ("adm-1", "adm-2")}
+
+
+def _codec_class(name):
+    from fim.slivers import capacities_labels as cl
+    return getattr(cl, name)
+
+
+def _field_values(cls, f):
+    if cls == "Labels":
+        return LABEL_VALUES[f]
+    return STR_VALUES.get(f, ("val-1", "val-2"))
+
+
+def _conc_field(cls, f, t):
+    if t.startswith("i:"):
+        return int(t[2:])
+    if t.startswith("f:"):
+        return float(t[2:])
+    if t.startswith("b:"):
+        return t == "b:true"
+    vals = _field_values(cls, f)
+    if t == "s:t1":
+        return vals[0] if vals[0] != "" else "v1"
+    if t == "s:t2":
+        return vals[1]
+    if t == "[s:t1,s:t2]":
+        return [vals[0] if vals[0] != "" else "v1", vals[1]]
+    raise ValueError(t)
+
+
+def _tok_field(cls, f, v):
+    if v is None:
+        return "unset"
+    if isinstance(v, bool):
+        return "b:true" if v else "b:false"
+    if isinstance(v, int):
+        return "i:%d" % v
+    if isinstance(v, float):
+        return "f:%r" % v
+    vals = _field_values(cls, f)
+    names = {(vals[0] if vals[0] != "" else "v1"): "s:t1", vals[1]: "s:t2"}
+    if isinstance(v, list):
+        return "[" + ",".join(names.get(x, "s:" + str(x)) for x in v) + "]"
+    return names.get(v, "s:" + str(v))
+
+
+def _fields(cls, obj):
+    return {f: _tok_field(cls, f, v) for f, v in obj.__dict__.items()}
+
+
+def _simple_roundtrip(o):
+    """returns (dec value class, absent, same_text)"""
+    c, v = o["cls"], o["val"]
+    if c == "Tags":
+        from fim.slivers.tags import Tags
+        tags = {"none": [], "one": ["blue"], "two": ["blue", "heavy-user_1"]}[v]
+        t = Tags(*tags)
+        text = t.to_json()
+        back = Tags.from_json(text)
+        dec = {0: "none", 1: "one", 2: "two"}[len(back.tags)] if back is not None and list(back.tags) == tags else "?"
+        return dec, back is None, back is not None and back.to_json() == text
+    if c in ("MeasurementData", "UserData", "LayoutData"):
+        from fim.slivers import json_data as jd
+        K = getattr(jd, c)
+        inp = {"none": None, "obj": {"k1": ["some", "list"], "k2": 5}, "text": '{"a": 1, "b": [2, 3]}', "emptyobj": {}, "list": [1, 2, "x"]}[v]
+        d = K(inp)
+        text = d.json
+        back = K(text)
+        want = {"none": {}, "obj": {"k1": ["some", "list"], "k2": 5}, "text": {"a": 1, "b": [2, 3]}, "emptyobj": {}, "list": [1, 2, "x"]}[v]
+        dec = ("emptyobj" if v == "none" else v) if back.data == want and d.data == want else "?"
+        return dec, False, back.json == text
+    if c == "Gateway":
+        from fim.slivers.gateway import Gateway
+        from fim.slivers.capacities_labels import Labels
+        lab = {"v4": Labels(ipv4_subnet="192.168.1.0/24", ipv4="192.168.1.1"),
+               "v6": Labels(ipv6_subnet="2001:db8::/48", ipv6="2001:db8::1"),
+               "v4mac": Labels(ipv4_subnet="10.0.0.0/8", ipv4="10.0.0.1", mac="00:11:22:33:44:55")}[v]
+        g = Gateway(lab)
+        text = g.to_json()
+        back = Gateway.from_json(text)
+        same = (back.gateway, back.subnet, back.mac) == (g.gateway, g.subnet, g.mac)
+        return (v if same else "?"), back is None or back.lab is None, back.to_json() == text
+    if c in ("PathInfo", "ERO"):
+        from fim.slivers.path_info import PathInfo, ERO, Path, PathRepresentationType
+        K = PathInfo if c == "PathInfo" else ERO
+        kind = v.split("_")[0]
+        if kind == "graph":
+            p = K(PathRepresentationType.Graph) if c == "PathInfo" else ERO(PathRepresentationType.Graph, strict=v.endswith("strict"))
+            p.set("graph-id-1")
+        else:
+            p = K() if c == "PathInfo" else ERO(strict=v.endswith("strict"))
+            pa = Path()
+            if kind == "asym":
+                pa.set(a2z=["a", "b", "c"], z2a=["c", "x", "a"])
+            else:
+                pa.set_symmetric(["10.1.1.1", "10.1.1.2"])
+            p.set(pa)
+        text = p.to_json()
+        back = K.from_json(text)
+        same = back is not None and back.to_json() == text and back.get()[0] == p.get()[0] and \
+            (back.get()[1] == p.get()[1] if kind == "graph" else back.get()[1].get() == p.get()[1].get()) and \
+            (c == "PathInfo" or back.get_strict() == p.get_strict())
+        return (v if same else "?"), back is None, back is not None and back.to_json() == text
+    from fim.graph import typed_tuples as tt
+    K = {"Label": tt.Label, "Capacity": tt.Capacity, "LocationTuple": tt.Location, "AllocationConstraint": tt.AllocationConstraint}[c]
+    atype = K(atype="x", aval="y").lv.get_types(K(atype="x", aval="y").category)[0] if False else None
+    inst0 = K.__new__(K)
+    K.__init__.__wrapped__ if False else None
+    types = tt.TypeValidator({"Label": "label", "Capacity": "cap", "LocationTuple": "location", "AllocationConstraint": "constraint"}[c],
+                             {"Label": "label_types.json", "Capacity": "capacity_types.json", "LocationTuple": "location_types.json",
+                              "AllocationConstraint": "constraint_types.json"}[c])
+    cat = {"Label": "label", "Capacity": "cap", "LocationTuple": "location", "AllocationConstraint": "constraint"}[c]
+    atype = types.get_types(cat)[0]
+    val = {"plain": "value-1", "colon": "a:b:c"}[v]
+    x = K(atype=atype, aval=val)
+    text = x.get_as_string()
+    back = K(fromstring=text)
+    same = back.get_type() == x.get_type() and back.get_val() == x.get_val()
+    return (v if same else "?"), False, back.get_as_string() == text
+
+
+def run_codec_script(script):
+    from fim.slivers.maintenance_mode import MaintenanceInfo, MaintenanceEntry, MaintenanceState
+    from datetime import datetime, timezone
+    maint = MaintenanceInfo()
+    steps = []
+
+    def mstate():
+        return {"entries": {n: str(e.state) for n, e in maint._nodes.items()}, "final": bool(maint._lock)}
+    for o in script:
+        op = o["op"]
+        out, res = "ok", {"k": "none"}
+        try:
+            if op in ("RoundTrip", "Update", "DecodeExtra"):
+                cls = o["cls"]
+                K = _codec_class(cls)
+                kw = {f: _conc_field(cls, f, t) for f, t in (o["asg"] or {}).items()}
+                obj = K(**kw)
+                before = _fields(cls, obj)
+                if op == "RoundTrip":
+                    text = obj.to_json()
+                    raw = json.loads(text) if text else {}
+                    back = K.from_json(text)
+                    res = {"k": "rt", "enc": {f: _tok_field(cls, f, v) for f, v in raw.items()}, "empty": text == "",
+                           "absent": back is None, "dec": _fields(cls, back if back is not None else K()),
+                           "same_text": True if back is None else back.to_json() == text,
+                           "orig_untouched": _fields(cls, obj) == before}
+                elif op == "Update":
+                    kw2 = {f: _conc_field(cls, f, t) for f, t in o["kw"].items()}
+                    new = K.update(obj, **kw2)
+                    res = {"k": "upd", "new": _fields(cls, new), "orig": _fields(cls, obj), "distinct": new is not obj}
+                else:
+                    text = obj.to_json()
+                    d = json.loads(text) if text else {}
+                    kind = {"Capacities": "int", "Flags": "bool"}.get(cls, "str")
+                    same = {"int": 5, "bool": True, "str": "x"}[kind]
+                    foreign = {"int": "x", "bool": "x", "str": 5}[kind]
+                    d["zz_unknown"] = same if o["extra"] == "same" else foreign
+                    back = K.from_json(json.dumps(d))
+                    res = {"k": "dec", "dec": _fields(cls, back)}
+            elif op == "SimpleRoundTrip":
+                dec, absent, same = _simple_roundtrip(o)
+                res = {"k": "simple", "dec": dec, "absent": bool(absent), "same_text": bool(same)}
+            elif op == "MNew":
+                maint = MaintenanceInfo()
+            elif op == "MAdd":
+                maint.add(o["name"], MaintenanceEntry(state=MaintenanceState[o["state"]],
+                                                      deadline=datetime(2026, 10, 1, 12, 0, tzinfo=timezone.utc)))
+            elif op == "MRem":
+                maint.rem(o["name"])
+            elif op == "MPop":
+                e = maint.pop(o["name"])
+                res = {"k": "val", "v": str(e.state)}
+            elif op == "MFinalize":
+                maint.finalize()
+            elif op == "MToJson":
+                raw = json.loads(maint.to_json())
+                res = {"k": "entries", "v": {n: e["state"] for n, e in raw.items()}}
+            elif op == "MIter":
+                res = {"k": "entries", "v": {n: str(e.state) for n, e in maint.iter()}}
+            elif op == "MReload":
+                back = MaintenanceInfo.from_json(maint.to_json())
+                ok = back is not None and all(back.get(n) == maint.get(n) for n in maint.list_names()) and back.to_json() == maint.to_json()
+                frozen = False
+                try:
+                    back.add("zz", MaintenanceEntry(state=MaintenanceState.Maint))
+                except Exception:  # noqa
+                    frozen = True
+                res = {"k": "entries", "v": {n: (str(e.state) if ok and frozen else "!" + str(e.state)) for n, e in back.list_details()}}
+            elif op == "MCopy":
+                c = maint.copy()
+                c.add("zz-copy-only", MaintenanceEntry(state=MaintenanceState.Maint))     # the copy is open, the original untouched
+                c.rem("zz-copy-only")
+                res = {"k": "entries", "v": {n: str(e.state) for n, e in c.list_details()}}
+                maint, _orig = c, maint
+            else:
+                raise ValueError(op)
+        except Exception as e:  # noqa
+            out, res = type(e).__name__, {"k": "none"}
+        steps.append({"op": o, "out": out, "res": res, "state": mstate()})
+    return {"steps": steps}
